@@ -22,7 +22,7 @@ SPEC_FUNCS = {
     "log_pos", "yielded", "exists_event", "all_events", "isinstance_",
     "truthy", "mem", "count_held", "seq", "select", "glob0", "obj", "strip",
     "split", "join", "cfg", "reaches", "no_event_between", "log_len", "the",
-    "split_ws", "as_", "tail", "has_loop", "ordered", "count_events", "pre", "app_call", "dynattr", "seq1", "prefix_of", "unbox", "is_bound", "obj_id", "cls_is", "cls_id_is", "no_lock_held",
+    "split_ws", "as_", "tail", "has_loop", "ordered", "count_events", "pre", "app_call", "dynattr", "seq1", "prefix_of", "unbox", "is_bound", "obj_id", "cls_is", "cls_id_is", "no_lock_held", "has_dynattr",
 }
 
 
@@ -346,6 +346,9 @@ class SpecMixin:
         if name == "dynattr":
             f_ = z3.Function("obj_getattr_dyn", ty.IntS, ty.StrS, ty.IntS)
             return VObj(f_(to_obj_term(val(a[0])), val(a[1]).t))
+        if name == "has_dynattr":
+            h_ = z3.Function("obj_hasattr_dyn", ty.IntS, ty.StrS, ty.BoolS)
+            return VBool(h_(to_obj_term(val(a[0])), val(a[1]).t))
         if name == "attr":
             from .engine import _attr
             return VObj(_attr(to_obj_term(val(a[0])), z3.IntVal(const_id(f"attr:{cstr(a[1])}"))))
